@@ -168,7 +168,7 @@ def build_config(optimizer, cfg_spec):
     return reg["cfg_cls"](**kw), True
 
 
-def build_optimizer(optimizer, cfg_spec):
+def build_optimizer(optimizer, cfg_spec, debug=False):
     reg = registry.load()[optimizer]
     cfg, repaired = build_config(optimizer, cfg_spec)
-    return reg["cls"](cfg), cfg, repaired
+    return (reg["cls"](cfg, debug=True) if debug else reg["cls"](cfg)), cfg, repaired
